@@ -236,12 +236,36 @@ fn answer(cmd: &str, line: &str) -> String {
     }
 }
 
+/// Accepts every record up to the configured level, formats it and throws the text away: the arguments
+/// of the log statements on the hooked paths are evaluated exactly as they are under `-v` / `-vv`.
+struct SinkLogger;
+
+impl log::Log for SinkLogger {
+    fn enabled(&self, _: &log::Metadata) -> bool {
+        true
+    }
+
+    fn log(&self, record: &log::Record) {
+        let _ = format!("{} {}", record.target(), record.args());
+    }
+
+    fn flush(&self) {}
+}
+
 pub fn dispatch() -> bool {
     let args: Vec<String> = std::env::args().collect();
     if args.len() < 3 || args[1] != "verif-hook" {
         return false;
     }
     panic::set_hook(Box::new(|_| {}));
+    // RBP_HOOK_LOG=<off|error|warn|info|debug|trace>: answer the requests with the log level a user gets from -v / -vv
+    if let Some(level) = std::env::var("RBP_HOOK_LOG")
+        .ok()
+        .and_then(|v| v.parse::<log::LevelFilter>().ok())
+    {
+        log::set_boxed_logger(Box::new(SinkLogger)).unwrap();
+        log::set_max_level(level);
+    }
     let cmd = args[2].as_str();
     let out = io::stdout();
     let mut out = io::BufWriter::new(out.lock());
